@@ -145,6 +145,13 @@ def gen_cases(tier, rng):
         for k in range(width):
             yield _make_case(rows, (3 * p + k) % k_all, counter)
             counter += 1
+    # long lines: many labels / long multi-word labels, so that every joined label line is far beyond 100 characters
+    # (line wrapping, width computations and buffers only show beyond the small tables)
+    for nn, mm, word in ((14, 12, 'item number %d of the table'), (3, 40, 'p %d'), (30, 2, 'a rather long object label with inner spaces, no. %d')):
+        objects = [(word % i).replace('p ', 'o ') if word.startswith('p ') else 'o: ' + word % i for i in range(nn)]
+        properties = [word % j if word.startswith('p ') else 'p: ' + word % j for j in range(mm)]
+        rows = [[bool((i * 7 + j * 3 + i * j) % 3 == 0) for j in range(mm)] for i in range(nn)]
+        yield common.case_of_table(rows, objects, properties, alphabet='long-lines', options=OPTIONS)
 
 
 def nontrivial(case):
